@@ -1,1 +1,73 @@
-// replay hooks for src/batch.rs (included as a child module `verif_replay` of that file)
+// Bounded-check driver for src/batch.rs (child module `verif_replay`).
+// C03 (a WAL record is one whole transaction): Batch::decode(Batch::encode(b)) reproduces b - version,
+// starting sequence number, every entry (kind, key, value with the documented Some([]) -> None collapse,
+// timestamp) and every value pointer - and entry i carries sequence number start + i.
+// Bound (stated): batches of <= 3 entries; kinds {Set, Delete, SoftDelete, Replace}; key lengths
+// {1, 127, 128}; values {None, empty, 1 byte, 127, 128, 300 bytes} (crossing the 1/2-byte varint
+// boundary); pointer present/absent; starting seq in {0, 1, 127, 128, 2^32, 2^56-2}; timestamps {0, 2^40}.
+use super::*;
+
+#[test]
+fn roundtrip_enum() {
+	let kinds = [InternalKeyKind::Set, InternalKeyKind::Delete, InternalKeyKind::SoftDelete, InternalKeyKind::Replace];
+	let keylens = [1usize, 127, 128];
+	let vals: [Option<usize>; 6] = [None, Some(0), Some(1), Some(127), Some(128), Some(300)];
+	let seqs = [0u64, 1, 127, 128, 1 << 32, (1 << 56) - 2];
+	let tss = [0u64, 1 << 40];
+	// one entry shape = (kind, keylen, val, has_ptr, ts)
+	let mut shapes = Vec::new();
+	for &k in &kinds { for &kl in &keylens { for &v in &vals { for &p in &[false, true] { for &t in &tss { shapes.push((k, kl, v, p, t)); } } } } }
+	let mut cases = 0u64;
+	let mut nontrivial = 0u64;
+	let mut failures: Vec<String> = Vec::new();
+	let mut check = |entries: &[(InternalKeyKind, usize, Option<usize>, bool, u64)], seq: u64| {
+		cases += 1;
+		let mut b = Batch::new(seq);
+		for (i, &(kind, kl, v, p, ts)) in entries.iter().enumerate() {
+			let key = vec![b'a' + i as u8; kl];
+			let value = v.map(|n| vec![0x5a ^ i as u8; n]);
+			let ptr = if p { Some(ValuePointer::new(i as u32 + 1, 1000 * i as u64, kl as u32, 7, 0xdead_0000 + i as u32)) } else { None };
+			b.add_record_internal(kind, key, value, ptr, ts).unwrap();
+		}
+		let enc = b.encode().unwrap();
+		let d = Batch::decode(&enc);
+		let mut bad: Option<String> = None;
+		match d {
+			Err(e) => bad = Some(format!("decode failed: {e}")),
+			Ok(d) => {
+				if d.version != b.version || d.starting_seq_num != b.starting_seq_num || d.entries.len() != b.entries.len() || d.valueptrs.len() != b.valueptrs.len() {
+					bad = Some("header / counts differ".to_string());
+				} else {
+					for i in 0..b.entries.len() {
+						let (x, y) = (&b.entries[i], &d.entries[i]);
+						let xv = match &x.value { Some(v) if v.is_empty() => None, o => o.clone() };
+						if x.kind != y.kind || x.key != y.key || xv != y.value || x.timestamp != y.timestamp || b.valueptrs[i] != d.valueptrs[i] {
+							bad = Some(format!("entry {i} differs"));
+						}
+					}
+					let with_seqs: Vec<u64> = d.entries_with_seq_nums().unwrap().map(|(_, _, s, _)| s).collect();
+					let want: Vec<u64> = (0..b.entries.len() as u64).map(|i| seq + i).collect();
+					if with_seqs != want || d.get_highest_seq_num() != seq + (b.entries.len().max(1) as u64 - 1) {
+						bad = Some("sequence numbering differs".to_string());
+					}
+				}
+			}
+		}
+		if entries.len() >= 2 { nontrivial += 1; }
+		if let Some(m) = bad { if failures.len() < 5 { failures.push(format!("{{\"start_seq\":{seq},\"entries(kind,keylen,vallen,ptr,ts)\":\"{:?}\",\"mismatch\":{:?}}}", entries, m)); } }
+	};
+	for &seq in &seqs {
+		check(&[], seq);
+		for &a in &shapes { check(&[a], seq); }
+	}
+	// pairs and triples over a thinned shape set (every 5th / 17th shape) to keep the run short
+	let thin: Vec<_> = shapes.iter().copied().step_by(5).collect();
+	for &seq in &[1u64, 128] { for &a in &thin { for &b2 in &thin { check(&[a, b2], seq); } } }
+	let thin3: Vec<_> = shapes.iter().copied().step_by(17).collect();
+	for &a in &thin3 { for &b2 in &thin3 { for &c in &thin3 { check(&[a, b2, c], 127); } } }
+	println!(
+		"REPLAY-RESULT {{\"driver\":\"batch::roundtrip_enum\",\"cases\":{cases},\"distinct_nontrivial\":{nontrivial},\"failures\":[{}]}}",
+		failures.join(",")
+	);
+	assert!(failures.is_empty());
+}
